@@ -44,6 +44,8 @@ def check(col: Collector, tier: str):
     col.floor("C04.R6", 3)
     check_container_elements(col, "C04.R6", m)
     _imports(col)
+    from sa.props._tr import check_rescope
+    check_rescope(col, "C04.R9", repo)
     # R7 a job that throws (First() on an empty sequence, at() past the end) must fail the run: the job step of every
     # runner stands in a plain errexit context, so its non-zero status ends the script before anything is delivered
     from sa.core.common import REPO
